@@ -392,6 +392,25 @@ func c05Ops() []cop {
 			}
 			return false
 		}},
+		{"b := concat(a, [7])", func(a, b **cval) bool {
+			if (*a).kind != "list" {
+				return false
+			}
+			// the result is a new list: a is untouched and independent
+			nl := append(append([]interface{}{}, *(*a).list...), float64(7))
+			p := false
+			*b = &cval{kind: "list", list: &nl, poison: &p}
+			return true
+		}},
+		{"b := concat(a, [])", func(a, b **cval) bool {
+			if (*a).kind != "list" {
+				return false
+			}
+			nl := append([]interface{}{}, *(*a).list...)
+			p := false
+			*b = &cval{kind: "list", list: &nl, poison: &p}
+			return true
+		}},
 		{"a := concat(a, [7])", func(a, b **cval) bool {
 			if (*a).kind != "list" {
 				return false
@@ -460,7 +479,7 @@ func c05Probes() []cprobe {
 			return "", false
 		}}
 	}
-	return []cprobe{ln("a", A), ln("b", B), idx("a", A, 0), idx("a", A, 1), idx("a", A, 2), idx("a", A, -1), idx("b", B, 0), idx("b", B, 1), key(`a["k"]`), key("a.k")}
+	return []cprobe{ln("a", A), ln("b", B), idx("a", A, 0), idx("a", A, 1), idx("a", A, 2), idx("a", A, -1), idx("b", B, 0), idx("b", B, 1), idx("b", B, 2), idx("b", B, -1), key(`a["k"]`), key("a.k")}
 }
 
 func c05Containers(c *Ctx, maxOps int) {
@@ -641,7 +660,7 @@ func init() {
 		Rule: "hand-enumerated families with computed expectations; all non-trivial",
 		Run:  func(c *Ctx) { c05Functions(c); c05Objects(c); c.Sample("m := {1: \"a\"}; m[1] := \"b\"; probe(\"x\", m[1])") }})
 	register(&Part{Prop: "C05", Name: "container-sequences", Quick: 16, Thor: 32, Replay: replay,
-		Desc: "every sequence of <= 3 (thorough 4) operations over 14 operations on two names (new list, new map with a string and a number key, alias, index / key / dot writes incl. negative and out-of-range indices, add, del by index / number key / string key, concat), each wrapped in try so that a failing operation has no effect, followed by 10 probes (len, indices 0, 1, 2, -1 of both names, a[\"k\"], a.k) compared with a Go slice/map model; reads of the argument of add/del after the call are left open",
+		Desc: "every sequence of <= 3 (thorough 4) operations over 16 operations on two names (new list, new map with a string and a number key, alias, index / key / dot writes incl. negative and out-of-range indices, add, del by index / number key / string key, concat), each wrapped in try so that a failing operation has no effect, followed by 10 probes (len, indices 0, 1, 2, -1 of both names, a[\"k\"], a.k) compared with a Go slice/map model; reads of the argument of add/del after the call are left open",
 		Rule: "odometer over operation sequences; all non-trivial; probes the model leaves open are skipped",
 		Run: func(c *Ctx) {
 			n := 3
